@@ -200,7 +200,7 @@ def run_cases(exe, cases, jobs=None, env=None, per_case_timeout=20):
         res = {}
         todo = list(chunk)
         wroot = os.path.join(scratch(), "w%d" % wi)
-        if wi % 2 and os.environ.get("VERIF_AMBIENT", "0") != "0":
+        if wi % 2 and os.environ.get("VERIF_AMBIENT", "1") != "0":
             # ambient variation: every second driver process works below a scratch root whose name holds blanks, delimiter,
             # comment, bracket, format and non-ASCII characters and which is some 300 bytes deep - nothing the library does may
             # depend on how the directory above its files is called (':' and ';' are left out: they are the list separators of
